@@ -140,6 +140,18 @@ def runCalls {σ ι ο : Type} (m : Module σ ι ο) : σ → List ι → σ × 
 abbrev Writes := List (String × Nat)
 def Writes.none (t : Writes) : Bool := t.all fun e => e.2 == 0
 
+/-- one reduction call of the complete scan: `kind` 0 = over `axes`, 1 = over all axes, 2 = unresolved -/
+structure Row where
+  fn : String
+  op : String
+  kind : Nat
+  axes : List Int
+deriving Repr, DecidableEq
+
+/-- the reduction leaves the batch axis alone: explicit axes, none of them 0 (negative axes address the trailing
+complex / spatial / flattened axes of tensors of rank ≥ 3) -/
+def Row.safe (r : Row) : Bool := r.kind == 0 && !r.axes.isEmpty && r.axes.all (· != 0)
+
 /-- reductions over all axes that provably do not reach the output: `RIM.forward` computes `grad.abs().max()` only to
 emit a warning -/
 def allowedGlobal : List (String × String) := [("RIM.forward", "max")]
@@ -147,5 +159,16 @@ def allowedGlobal : List (String × String) := [("RIM.forward", "max")]
 /-- FINDING (current tree): the stopping test of `ConjGrad.cg` averages the residual norm over the *batch*
 (`rk_norm_sq_new.abs().sqrt().mean() < tol`): the number of CG iterations a sample gets depends on its companions -/
 def pendingGlobal : List (String × String) := [("ConjGrad.cg", "mean")]
+
+/-- rows of the complete scan that are not `safe` syntactically but are per-sample for a stated reason -/
+def allowedRows : List (String × String) :=
+  [("RIM.forward", "max"),                     -- `grad.abs().max() > 150` only triggers a warning
+   ("ConjGrad.cg", "complex_dot_product"),     -- `dim = torch.arange(1, x.ndim - 1)`: starts at 1
+   ("_PRP", "complex_dot_product"), ("_DY", "complex_dot_product"), ("_BAN", "complex_dot_product")]  -- same `dim`, passed by `cg`
+
+/-- the one pending / known batch-coupled reduction -/
+def pendingRows : List (String × String) := [("ConjGrad.cg", "mean")]
+
+def Row.accounted (r : Row) : Bool := r.safe || allowedRows.contains (r.fn, r.op) || pendingRows.contains (r.fn, r.op)
 
 end DirectVerif.BatchSep
